@@ -11,6 +11,7 @@ import ast
 from sa.analyses.base import is_name
 from sa.analyses.ownership import OK_EXIT, OwnershipAnalysis, SlotAnalysis
 from sa.db import AnalysisError, dotted, own_nodes, norm_stmt
+from sa.exc import CANCELLED
 from sa.flow import Interp
 
 RESOLVER = "lowlevel.api_async.backend._common.dns_resolver:BaseAsyncDNSResolver"
@@ -175,6 +176,119 @@ def run(eng, run):
         n_inst += 1
     run.floor("C19.own instances", n_inst, 6)
     check_all_attempted(eng, run, race, tc)
+    check_entry_lists(eng, run, resolver)
+    check_registered(eng, run)
+    # the race winner handed to the TLS layer: a handshake that fails *or is cancelled* closes it (ownership machinery of C14)
+    from rules import c14
+    from sa.analyses.closing import CloserRegistry
+    registry = CloserRegistry(eng)
+    c14.check_close_path(eng, run, registry, db.fn("lowlevel.api_async.transports.tls:AsyncTLSStreamTransport.wrap"), tracked=["transport"], exits="exc", rule="C19.own")
+
+
+def check_entry_lists(eng, run, resolver):
+    """the address lists (remote *and* local: bind() falls back to the next local address of the family) travel unchanged from
+    the resolver to the connection attempt: in the public entry points every binding of a list that is handed to the implementation
+    is `await self.ensure_resolved(...)` or None"""
+    n = 0
+    for name in ("create_stream_connection", "create_datagram_connection"):
+        fn = resolver.methods.get(name)
+        if fn is None:
+            raise AnalysisError(f"anchor vanished: {resolver.name}.{name}")
+        handed = {}
+        for c in own_nodes(fn.node):
+            if isinstance(c, ast.Call) and isinstance(c.func, ast.Attribute) and c.func.attr.endswith("_impl"):
+                for k in c.keywords:
+                    if k.arg and k.arg.endswith("addrinfo"):
+                        handed[k.arg] = k.value
+        if len(handed) < 2:
+            raise AnalysisError(f"anchor vanished: {name} hands remote/local addrinfo to the implementation")
+        for kw, v in handed.items():
+            n += 1
+            probs = []
+            if not isinstance(v, ast.Name):
+                probs.append(f"`{kw}={ast.unparse(v)[:50]}` is not the resolved list itself")
+            else:
+                for a in own_nodes(fn.node):
+                    tg = a.targets if isinstance(a, ast.Assign) else ([a.target] if isinstance(a, (ast.AnnAssign, ast.AugAssign, ast.NamedExpr)) else [])
+                    if any(is_name(t, v.id) for t in tg):
+                        val = getattr(a, "value", None)
+                        resolved = isinstance(val, ast.Await) and isinstance(val.value, ast.Call) and isinstance(val.value.func, ast.Attribute) and val.value.func.attr == "ensure_resolved"
+                        none = isinstance(val, ast.Constant) and val.value is None
+                        if isinstance(a, ast.AugAssign) or not (resolved or none):
+                            probs.append(f"`{ast.unparse(a)[:70]}` re-binds the resolved list")
+                for lp in own_nodes(fn.node):
+                    if isinstance(lp, ast.Call) and isinstance(lp.func, ast.Attribute) and dotted(lp.func.value) == v.id and lp.func.attr in ("pop", "remove", "clear", "__delitem__"):
+                        probs.append(f"`{ast.unparse(lp)}` removes addresses")
+                    if isinstance(lp, ast.Delete) and any(dotted(getattr(t, "value", None)) == v.id for t in lp.targets):
+                        probs.append(f"`{ast.unparse(lp)}` removes addresses")
+            for pr in probs[:1]:
+                run.finding("C19.all", fn, fn.node, f"{name}: {pr}: an address the resolver returned is never tried (for the local list: the bind() fall-back to the next address of the family is lost "
+                            "and a viable attempt fails)")
+            run.ob("C19.all", f"{fn.short}:{kw}:resolved-list-unchanged", not probs)
+    run.floor("C19.all entry-point address lists", n, 4)
+
+
+def check_registered(eng, run):
+    """the pending connector stays registered in the client while the race is awaited: aclose() cancels the race through that
+    attribute - detaching it before the await makes aclose() return at once while the attempt completes and its socket stays open"""
+    from sa.analyses.base import RuleAnalysis
+    from sa.flow import Interp as _I
+
+    ci = eng.db.cls("clients.async_tcp.AsyncTCPNetworkClient")
+    ac = ci.methods.get("aclose")
+    if ac is None:
+        raise AnalysisError("anchor vanished: AsyncTCPNetworkClient.aclose")
+    attrs = set()
+    for c in own_nodes(ac.node):
+        if isinstance(c, ast.Call) and isinstance(c.func, ast.Attribute) and c.func.attr == "cancel":
+            d = dotted(c.func.value) or ""
+            parts = d.split(".")
+            if len(parts) >= 3 and parts[0] == ac.self_name:
+                attrs.add(".".join(parts[1:2]))
+    if len(attrs) != 1:
+        raise AnalysisError("anchor vanished: the connector whose scope aclose() cancels")
+    attr = next(iter(attrs))
+    n = 0
+    for fn in ci.methods.values():
+        if not fn.is_async or fn is ac:
+            continue
+        full = f"{fn.self_name}.{attr}"
+        aliases = {t.id for a in own_nodes(fn.node) if isinstance(a, (ast.Assign, ast.NamedExpr)) and dotted(a.value) == full
+                   for t in ([a.target] if isinstance(a, ast.NamedExpr) else a.targets) if isinstance(t, ast.Name)}
+        aliases |= {x.id for a in own_nodes(fn.node) if isinstance(a, ast.Assign) and isinstance(a.value, ast.Tuple) for t in a.targets if isinstance(t, ast.Tuple)
+                    for x, v in zip(t.elts, a.value.elts) if isinstance(x, ast.Name) and dotted(v) == full}
+        drives = [w for w in own_nodes(fn.node) if isinstance(w, ast.Await) and isinstance(w.value, ast.Call) and isinstance(w.value.func, ast.Attribute)
+                  and (dotted(w.value.func.value) in aliases or dotted(w.value.func.value) == full)]
+        if not drives:
+            continue
+        n += 1
+
+        class Reg(RuleAnalysis):
+            tokens = ("Exception", CANCELLED)
+
+            def initial(self, f):
+                self.bad = []
+                return ["registered"]
+
+            def transfer(self, node, fact):
+                if isinstance(node, ast.Assign):
+                    for t in node.targets:
+                        pairs = list(zip(t.elts, node.value.elts)) if isinstance(t, ast.Tuple) and isinstance(node.value, ast.Tuple) else [(t, node.value)]
+                        for tt, vv in pairs:
+                            if dotted(tt) == full:
+                                fact = "detached" if isinstance(vv, ast.Constant) and vv.value is None else "registered"
+                    return [fact]
+                if node in drives and fact == "detached":
+                    self.bad.append(node)
+                return [fact]
+
+        an = Reg(eng)
+        _I(an, fn).run()
+        for b in an.bad[:1]:
+            run.finding("C19.own", fn, _stmt_at(fn, b.lineno), f"the connection race is awaited after `{full}` was reset: aclose() finds nothing to cancel, returns at once, and the attempt "
+                        "that completes afterwards leaves its socket open on a closed client")
+        run.ob("C19.own", f"{fn.short}:connector-registered-while-awaited", not an.bad, awaits=len(drives))
+    run.floor("C19.own functions awaiting the pending connector", n, 1)
 
 
 PRESERVING = {"chain", "from_iterable", "zip_longest", "list", "tuple", "values", "items", "sorted", "reversed", "OrderedDict", "dict", "iter"}
@@ -363,4 +477,29 @@ BENIGN = [
             lambda fn: (delete_stmt(find_handler(fn, "BaseException", 1), stmt_is("errors.clear()")),
                         insert_after(find_handler(fn, "BaseException", 1), stmt_is("socket.close()"), "errors.clear()")),
             why="independent statements re-ordered"),
+]
+
+_ENS = "clients.async_tcp:AsyncTCPNetworkClient.__ensure_connected"
+_CSC = RESOLVER + ".create_stream_connection"
+_WRAP = "lowlevel.api_async.transports.tls:AsyncTLSStreamTransport.wrap"
+
+
+def _detach_before_await(fn):
+    from sa.mutate import replace_expr, stmt_is
+    replace_expr(fn, "(socket_connector := self.__socket_connector) is not None", "socket_connector is not None")
+    delete_stmt(fn, stmt_is("self.__socket_connector = None"))
+    iff = next(n for n in ast.walk(fn) if isinstance(n, ast.If) and "socket_connector is not None" in ast.unparse(n.test))
+    for blk in [n.body for n in ast.walk(fn) if hasattr(n, "body") and isinstance(getattr(n, "body"), list)]:
+        if iff in blk:
+            blk.insert(blk.index(iff), ast.parse("socket_connector, self.__socket_connector = self.__socket_connector, None").body[0])
+
+
+MUTANTS += [
+    Variant("connector-detached-before-the-race-is-awaited", _ENS, _detach_before_await, "C19.own",
+            why="aclose() during wait_connected() cannot cancel the race: the socket stays open on a closed client (seed C19-4)"),
+    Variant("tls-wrap-cleanup-narrowed-to-exception", _WRAP, lambda fn: __import__("sa.mutate", fromlist=["set_handler_type"]).set_handler_type(fn, "BaseException", "Exception"), "C19.own",
+            why="a connect cancelled during the TLS handshake leaks the race winner (seed C19-5)"),
+    Variant("local-addresses-first-per-family", _CSC,
+            lambda fn: insert_after(fn, __import__("sa.mutate", fromlist=["stmt_has"]).stmt_has("local_addrinfo = await self.ensure_resolved"), "local_addrinfo = list({info[0]: info for info in reversed(local_addrinfo)}.values())"),
+            "C19.all", why="bind() fall-back to the next local address of the family is lost (seed C19-6)"),
 ]
